@@ -1,6 +1,9 @@
 import Firebolt.Properties.C07
+import Firebolt.Properties.RefreshConc
 import Firebolt.Generated.Source
 import Firebolt.Expected.Source
+import Firebolt.Generated.Closure
+import Firebolt.Expected.Closure
 /-!
 # C09 — Recovery follows partition ownership and survives restarts and rebalances
 
@@ -157,5 +160,55 @@ theorem source_rcRecoverSingleEvent : GeneratedSrc.rcRecoverSingleEvent = Expect
 /-! ### functions the model's assumptions rest on (construction, wiring, surrounding calls) are unchanged -/
 theorem source_kcShutdown : GeneratedSrc.kcShutdown = ExpectedSrc.kcShutdown := by rfl
 theorem source_kcStart : GeneratedSrc.kcStart = ExpectedSrc.kcStart := by rfl
+
+/-! ### several goroutines: the ticker's refresh, revocations and assignments, completions (`Model/RefreshConc.lean`)
+
+The sequential model above takes `RefreshAssignments` as one step.  That is justified by the locking discipline the pins
+`source_refreshAssignments` / `source_setAssignedPartitions` show (lock first, everything under it): for every interleaving
+of any number of callers the outcome at quiescence is the sequential one. -/
+
+open Firebolt.RefreshConc in
+/-- whatever the schedule of the goroutines' steps: when all calls have returned the recovery client is assigned exactly
+the owned partitions with an outstanding request -/
+theorem refresh_any_interleaving (req : Part → Bool) (s0 : Sys) (h0 : Inv req s0) (sched : List Nat)
+    (hq : ∀ j, ((run (step req) s0 sched).th j).todo = []) :
+    (run (step req) s0 sched).sh.client = (run (step req) s0 sched).sh.active ∧
+    ∀ p, p ∈ (run (step req) s0 sched).sh.client ↔ (p ∈ (run (step req) s0 sched).sh.owned ∧ req p = true) :=
+  refresh_serialised req s0 h0 sched hq
+
+open Firebolt.RefreshConc in
+/-- a revocation that has returned leaves the recovery client without partitions, whatever refresh was in flight -/
+theorem revocation_any_interleaving (req : Part → Bool) (s0 : Sys) (h0 : Inv req s0) (sched : List Nat)
+    (hq : ∀ j, ((run (step req) s0 sched).th j).todo = []) (hrev : (run (step req) s0 sched).sh.owned = []) :
+    (run (step req) s0 sched).sh.client = [] :=
+  revoked_reads_nothing req s0 h0 sched hq hrev
+
+open Firebolt.RefreshConc in
+/-- the callers cannot block one another for good: while a call is outstanding some goroutine can step -/
+theorem refresh_no_deadlock (req : Part → Bool) (s : Sys) (hI : Inv req s) (j : Nat) (hj : (s.th j).todo ≠ []) :
+    ∃ i, (step req s i).isSome = true :=
+  progress req s hI j hj
+
+open Firebolt.RefreshConc in
+/-- the test `partitionAssignmentsChanged` makes on two maps is set equality of their keys -/
+theorem changed_test_is_set_equality (c a : List Part) (hc : c.Nodup) (ha : a.Nodup) :
+    (c.length = a.length ∧ ∀ p ∈ c, p ∈ a) ↔ sameSet c a = true :=
+  code_test_iff c a hc ha
+
+open Firebolt.RefreshConc in
+/-- the protocol before fix F12 (candidates compared outside the lock) loses a revocation that arrives while a refresh is
+in its broker round trip — the history found on the real code, here as a schedule of the old protocol's model -/
+theorem protocol_before_F12_lost_revocations :
+    let s := run (stepOld demoReq) demo badSchedule
+    (s.th 0).todo = [] ∧ (s.th 1).todo = [] ∧ s.sh.holder = none ∧ s.sh.owned = [] ∧ s.sh.client = [0] :=
+  old_protocol_loses_revocation
+
+open Firebolt.RefreshConc in
+/-- non-vacuity: the demo system (ticker refresh ∥ revocation) satisfies the invariant's start condition -/
+theorem refresh_demo_meets_hypotheses : Inv demoReq demo := demo_inv
+
+/-! ### influence closure: the pinned functions, and every function of the repository that writes a struct field or package
+variable they read, are unchanged (digests regenerated from /repo on every run; a difference names the functions) -/
+theorem closure_unchanged : GeneratedClo.C09 = ExpectedClo.C09 := by rfl
 
 end Firebolt.C09
